@@ -12,14 +12,14 @@ BUDGET = {"quick": 1500, "thorough": 15000}
 RULE = ("Hypothesis draws 0-3 regions (incl. degenerate), an extended-code configuration and, after G28, 4-30 commands from a "
         "wide grammar: every handled code (G0-G3, G10, G11, G20, G21, G28, G90, G91, G92, M206), configured deferred codes, unknown "
         "codes, sub-codes, T codes, lower case; 0-7 parameter words with any letter, missing / repeated / valueless words, signs, "
-        "1-25-digit integers, up to 30 decimals, leading/trailing points; templates for degenerate arcs (I=J=0, end=start, end in "
+        "1-25-digit (occasionally 40-300-digit, still finite) integers, up to 30 decimals, leading/trailing points; templates for degenerate arcs (I=J=0, end=start, end in "
         "line with the centre, R=0, |R| below half the chord, R with axis-aligned and diagonal chords); @-commands toggling "
         "exclusion. Each sequence is run through plugin.handleGcodeQueuing (active print) and through StreamProcessor.process_line "
         "(lines with comments, line numbers, CRLF). Arc radii are bounded (|I|,|J|,|R| <= 1500 logical units) because planArc "
         "materialises one point per unit - a cost bound. Non-trivial = the sequence opened an episode or planned an arc. "
         "Distinct by SHA-1 of the case.")
 ASSUMPTIONS = [
-    "numbers are finite (at most 25 integer digits); the axes are homed by the leading G28",
+    "numbers are finite (at most 300 integer digits); the axes are homed by the leading G28",
     "result shapes: None | exactly (None,) | non-empty list of non-empty str (hook); None | non-empty str (stream)",
 ]
 
@@ -27,7 +27,7 @@ CODES = ["G0", "G1", "G1", "G1", "G2", "G3", "G10", "G11", "G20", "G21", "G28", 
          "M73", "G5", "G29", "G38.2", "G92.1", "M82", "M83", "M104", "M106", "T0", "T1", "M600", "G1.5", "g1", "g2", "m117", "G00", "G01",
          "M0", "G80", "M999"]
 LETTERS = "XYZEFIJRPSXYZEFXYLKABCDHOQUVWT"
-ints = st.integers(1, 25).flatmap(lambda n: st.text(alphabet="0123456789", min_size=n, max_size=n))
+ints = st.one_of(st.integers(1, 25), st.integers(1, 25), st.integers(1, 25), st.sampled_from([40, 120, 155, 160, 200, 300])).flatmap(lambda n: st.text(alphabet="0123456789", min_size=n, max_size=n))
 decs = st.integers(1, 30).flatmap(lambda n: st.text(alphabet="0123456789", min_size=n, max_size=n))
 small = st.sampled_from(["0", "1", "2", "5", "10", "15", "20", "25", "0.5", "12.5", "7.25", "100", "0.001", "250"])
 number = st.one_of(small, small, small,
@@ -43,7 +43,7 @@ ARC_TEMPLATES = ["G2 X10 Y10 I0 J0", "G3 X10 Y10", "G2 I5 J0", "G3 I0 J-5", "G3 
 NEAR_R = ["4.9998", "4.99999999", "5.0000001", "5.0004", "-4.9998", "5", "-5", "4.9995", "5.0005"]
 MISC_TEMPLATES = ["G28", "G28 X", "G28 Z0", "G92 X0 Y0 Z0 E0", "G92 E", "G92", "M206 X5 Y-5 Z0.1", "M206", "G10 P1 L2 X0", "G10 S1", "G11 S1",
                   "G1 E-5 F1800", "G1 E5", "G1 F", "G1 X15 Y15", "G1 X15.5 Y16 E3", "G1 X40 Y40", "G0 Z", "G1 X15", "G91", "G90", "G20", "G21",
-                  "M117", "M117 X1 *;", "M204 S", "M205 X Y", "M73 P50 R", "G4"]
+                  "M117", "M117 X1 *;", "M204 S", "M205 X Y", "M73 P50 R", "G4", "G1 Z5", "G0 Z1.5", "G1 Z0.3 E1", "G1 Z2 F600"]
 
 
 @st.composite
@@ -94,6 +94,12 @@ def cases(draw):
                 prog.append(["g", draw(st.sampled_from(["M117 a", "M204 S5", "M204 T7", "M205 X Y5", "M73 P5", "G4 P1", "T0", "G5 X1 I1"]))])
         elif draw(st.integers(0, 11)) == 0:
             prog.append(["at", "ExcludeRegion", draw(st.sampled_from(["off", "on", "", "x"]))])
+        elif draw(st.integers(0, 14)) == 0:
+            # the user draws a region around the tool (wherever the filter believes it is) or deletes one, mid-print
+            prog.append(draw(st.sampled_from([["reghere", 2.5], ["reghere", 0.0], ["reghere", 40.0], ["regdel"]])))
+            if draw(st.booleans()):
+                prog.append(["g", draw(st.sampled_from(["G1 Z5", "G0 Z1", "G1 Z0.4 E2", "G10", "G1 E-1"]))])
+                prog.append(["g", draw(st.sampled_from(["G1 X200 Y200", "G1 X-50 Y0", "G91", "G1 X100"]))])
         else:
             for c in draw(command()).split("\n"):
                 prog.append(["g", c])
@@ -117,6 +123,18 @@ def bounded(cmd):
         if l in "IJR" and v is not None and abs(v) > 1500:
             return False
     return True
+
+
+def region_event(state, item, add, delete, idx):
+    """A region appears around the tracked tool position / the first region disappears (robustness only: no oracle reads this)."""
+    if item[0] == "regdel":
+        if state.excludedRegions:
+            delete(state.excludedRegions[0].id)
+        return
+    x, y = state.position.X_AXIS.current, state.position.Y_AXIS.current
+    if x is None or y is None or x != x or y != y or abs(x) == float("inf") or abs(y) == float("inf"):
+        return
+    add({"type": "CircularRegion", "cx": x, "cy": y, "r": item[1], "id": "here%d" % idx})
 
 
 def shape_ok(res):
@@ -145,6 +163,9 @@ def run_case(case, strict=False):  # pylint: disable=unused-argument,too-many-br
             if item[0] == "at":
                 h.at(item[1], item[2])
                 continue
+            if item[0] in ("reghere", "regdel"):
+                region_event(h.state, item, lambda d: h.api("addExcludeRegion", d), lambda i: h.api("deleteExcludeRegion", {"id": i}), idx)
+                continue
             cmd = item[1]
             if not bounded(cmd):
                 skipped += 1
@@ -165,6 +186,16 @@ def run_case(case, strict=False):  # pylint: disable=unused-argument,too-many-br
     sp = StreamProcessor(io.BytesIO(b""), live.handlers)
     wraps = case.get("wrap") or [""] * len(case["prog"])
     for idx, (item, w) in enumerate(zip(case["prog"], wraps)):
+        if item[0] in ("reghere", "regdel"):
+            # (the offline copy has its own state: the edit is applied to it directly)
+            st_ = sp.gcodeHandlers.state
+            try:
+                region_event(st_, item, lambda d: st_.addRegion(core.make_region({"type": "circ", "cx": d["cx"], "cy": d["cy"], "r": d["r"], "id": d["id"]})),
+                             st_.deleteRegion, idx)
+            except Exception as exc:  # pylint: disable=broad-except
+                bad("c09_stream_exception", "item %d %r: %s: %s" % (idx, item, type(exc).__name__, exc))
+                break
+            continue
         if item[0] == "at":
             line = "@%s %s" % (item[1], item[2])
         else:
